@@ -64,11 +64,12 @@ impl Storage<Key> for CountingRef {
 }
 
 /// Logical keys. Variants are different constructions of an equal key.
-pub const NKEYS: usize = 4;
+pub const NKEYS: usize = 5;
 
 static SL_AB: [Label; 2] = [Label::from_static_parts("a", "1"), Label::from_static_parts("b", "2")];
 static SL_BA: [Label; 2] = [Label::from_static_parts("b", "2"), Label::from_static_parts("a", "1")];
 static SL_A: [Label; 1] = [Label::from_static_parts("a", "1")];
+static SL_HH: [Label; 2] = [Label::from_static_parts("h", "a"), Label::from_static_parts("h", "b")];
 
 fn same_shard_name() -> &'static str {
     use std::sync::OnceLock;
@@ -102,9 +103,16 @@ fn build_key(logical: usize, variant: u8) -> Key {
             0 => Key::from_name(same_shard_name()),
             _ => Key::from_name(same_shard_name().to_string()),
         },
-        _ => match variant % 2 {
+        3 => match variant % 2 {
             0 => Key::from_static_parts("k0", &SL_A),
             _ => Key::from_parts("k0", vec![Label::new("a", "1")]),
+        },
+        // two labels sharing one name: equal whatever the order they were supplied in
+        _ => match variant % 4 {
+            0 => Key::from_static_parts("k1", &SL_HH),
+            1 => Key::from_parts(String::from("k1"), vec![Label::new("h", "b"), Label::new("h", "a")]),
+            2 => Key::from_name("k1").with_extra_labels(vec![Label::new("h", "b"), Label::new("h", "a")]),
+            _ => Key::from_parts("k1", vec![Label::new(String::from("h"), String::from("a")), Label::new("h", "b")]),
         },
     }
 }
